@@ -9,6 +9,14 @@ Definition vkey_eqb : list val -> list val -> bool := list_eqb py_val_eq.
 Definition vrow := trow val (list val) val.
 Definition vframe := jframe val val.
 
+(* monomorphic constructors for the literals printed by the harness (cheap to elaborate) *)
+Definition vt (l : val) (k c : list val) : vrow := mk_trow l k c.
+Definition vjf (i : list (val + val * val)) (n : list string) (c : list (list val)) : vframe := mk_jframe i n c.
+Definition ir (a b : val) : val + val * val := inr (a, b).
+Definition il (a : val) : val + val * val := inl a.
+Definition OkJ (f : vframe) : res vframe := Ok f.
+Definition ErrJ (e : string) : res vframe := Err e.
+
 Definition vlab_eqb (a b : val + val * val) : bool :=
   match a, b with
   | inl x, inl y => val_eqb x y
